@@ -29,8 +29,10 @@
   Sampler.  `generate_samples` is modelled as a deterministic function of the draws of `random.choices` /
   `random.shuffle` (`Model/C06Samp.lean`); the theorems of the section "the direct sample generator" are about the
   push-forward of the IDEAL law of these draws (independent indices with probability `wᵢ/Σw`, uniform permutations).
-  Proved in full for the no-filter route (`sampler_no_filter_law`); for the event-table route the law of the photons a
-  sample carries is proved, their placement over the modes is not (`sampler_filtered_law_partial` says what is missing).
+  Proved in full for the no-filter route (`sampler_no_filter_law`) and for the event-table route
+  (`sampler_filtered_law`: under a uniform shuffle the per-mode class profile of a sample — the sample up to the names
+  of its fresh tags — follows `generate_distribution` conditioned on the photon filter; `sampler_filtered_law_partial`
+  is the part that holds for EVERY law of the shuffle).
 -/
 import PercevalModel.Lemmas.C06
 import PercevalModel.Lemmas.C06Fresh
@@ -41,6 +43,10 @@ import PercevalModel.Lemmas.C06Loss
 import PercevalModel.Lemmas.C06More
 import PercevalModel.Model.C06Proc
 import PercevalModel.Lemmas.C06Multi
+import PercevalModel.Lemmas.C06Anon
+import PercevalModel.Lemmas.C06Place
+import PercevalModel.Lemmas.C06PlaceK
+import PercevalModel.Lemmas.C06Route
 
 namespace PM.C06
 
@@ -333,26 +339,34 @@ theorem proc_step_inv (s : Proc) (op : ProcOp) (h : s.Inv) : (procStep s op).1.I
     rw [if_neg (fun e => hd.2 e.symm)]
     exact hs hd.1
   | assign id =>
-    -- the cache survives exactly when the input is a custom one; then it holds that custom object
-    cases hin : s.input with
-    | none =>
-      refine ⟨fun _ => rfl, fun d hd => ?_, fun c hd => ?_, fun c hi => ?_⟩ <;>
-        simp [procStep, Proc.hasCustomInput, hin] at *
-    | some i =>
-      cases i with
-      | fock ns =>
-        refine ⟨fun _ => rfl, fun d hd => ?_, fun c hd => ?_, fun c hi => ?_⟩ <;>
-          simp [procStep, Proc.hasCustomInput, hin] at *
-      | custom c0 =>
-        have hk := hck c0 hin
-        refine ⟨fun _ => rfl, fun d hd => ?_, fun c hd => ?_, fun c hi => ?_⟩
-        · simp [procStep, Proc.hasCustomInput, hin, hk] at hd
-        · simp only [procStep, Proc.hasCustomInput, hin, hk, if_true, Option.some.injEq,
-            Cached.custom.injEq] at hd ⊢
-          rw [hd]
-        · simp only [procStep, Proc.hasCustomInput, hin, hk, if_true, Option.some.injEq,
-            Inp.custom.injEq] at hi ⊢
-          rw [hi]
+    by_cases ha : (s.heap id).admissible = true
+    · -- the cache survives exactly when the input is a custom one; then it holds that custom object
+      cases hin : s.input with
+      | none =>
+        refine ⟨fun _ => ?_, fun d hd => ?_, fun c hd => ?_, fun c hi => ?_⟩ <;>
+          simp [procStep, ha, Proc.hasCustomInput, hin] at *
+      | some i =>
+        cases i with
+        | fock ns =>
+          refine ⟨fun _ => ?_, fun d hd => ?_, fun c hd => ?_, fun c hi => ?_⟩ <;>
+            simp [procStep, ha, Proc.hasCustomInput, hin] at *
+        | custom c0 =>
+          have hk := hck c0 hin
+          refine ⟨fun _ => ?_, fun d hd => ?_, fun c hd => ?_, fun c hi => ?_⟩
+          · simp [procStep, ha]
+          · simp [procStep, ha, Proc.hasCustomInput, hin, hk] at hd
+          · simp only [procStep, ha, Proc.hasCustomInput, hin, hk, if_true, Option.some.injEq,
+              Cached.custom.injEq] at hd ⊢
+            rw [hd]
+          · simp only [procStep, ha, Proc.hasCustomInput, hin, hk, if_true, Option.some.injEq,
+              Inp.custom.injEq] at hi ⊢
+            rw [hi]
+    · -- a rejected assignment: only the reference moves, and the ghost flag is raised
+      refine ⟨fun hd => ?_, fun d hd => ?_, fun c hd => ?_, fun c hi => ?_⟩
+      · simp [procStep, ha] at hd
+      · simp only [procStep, ha] at hd ⊢; exact hc d hd
+      · simp only [procStep, ha] at hd ⊢; exact hcc c hd
+      · simp only [procStep, ha] at hi ⊢; exact hck c hi
   | input ns =>
     refine ⟨hs, fun d hd => ⟨ns, s.tag, rfl, ?_⟩, fun c hd => ?_, fun c hi => ?_⟩
     · simp only [procStep, Proc.fill, Option.some.injEq, Cached.gen.injEq] at hd
@@ -463,11 +477,28 @@ theorem proc_source_current (heap : ℕ → NoiseVal) (ref : ℕ) (ops : List Pr
   obtain ⟨hs, _⟩ := proc_inv_all_histories heap ref ops
   exact ⟨(procAfter heap ref ops).tag, by simp only [procStep, hs hd]⟩
 
-/-- An assignment always ends the "updated in place" state, whatever object is assigned. -/
-theorem proc_assign_clean (heap : ℕ → NoiseVal) (ref : ℕ) (ops : List ProcOp) (id : ℕ) :
+/-- An ACCEPTED assignment (the values of the object pass the assertions of `Source.__init__`) always ends the
+"updated in place / rejected" state, whatever object is assigned. -/
+theorem proc_assign_clean (heap : ℕ → NoiseVal) (ref : ℕ) (ops : List ProcOp) (id : ℕ)
+    (ha : ((procAfter heap ref ops).heap id).admissible = true) :
     (procAfter heap ref (ops ++ [.assign id])).dirty = false ∧
     (procAfter heap ref (ops ++ [.assign id])).ref = id := by
-  simp [procAfter, SM.exec_append, SM.exec_cons, SM.exec_nil, procStep]
+  simp only [procAfter] at ha
+  simp [procAfter, SM.exec_append, SM.exec_cons, SM.exec_nil, procStep, ha]
+
+/-- A REJECTED assignment (`Source.from_noise_model` raises inside `_noise_changed_observer`, after the setter has
+stored the reference): `processor.noise` reports the rejected object, but the processor keeps the source, the tag
+counter, the input and the cached distribution it had — it goes on answering for the values accepted last — and
+nothing is claimed of its reads (`dirty`) until an assignment is accepted (`proc_assign_clean`).  In particular a
+rejected assignment can never make a later judged read wrong: the invariant is kept (`proc_step_inv`). -/
+theorem proc_assign_rejected (heap : ℕ → NoiseVal) (ref : ℕ) (ops : List ProcOp) (id : ℕ)
+    (ha : ((procAfter heap ref ops).heap id).admissible = false) :
+    let s := procAfter heap ref ops
+    let s' := procAfter heap ref (ops ++ [.assign id])
+    s'.ref = id ∧ s'.dirty = true ∧ s'.src = s.src ∧ s'.tag = s.tag ∧ s'.input = s.input ∧
+      s'.cache = s.cache ∧ s'.heap = s.heap := by
+  simp only [procAfter] at ha
+  simp [procAfter, SM.exec_append, SM.exec_cons, SM.exec_nil, procStep, ha]
 
 
 /-! ### individual probabilities (from the generating functions to their coefficients) -/
@@ -773,6 +804,86 @@ theorem sampler_filtered_law_partial {P : Params} (hP : P.WF) {ns : List ℕ} (h
     fun u v => fLaw_class_pmf hP hne f t hf hperf σ hσ hm u v,
     shuffleLaw_perm ns.sum, shuffleLaw_mass ns.sum⟩
 
+/-- **The event-table route draws from `generate_distribution` conditioned on the photon filter — placement over the
+modes included.**  The *per-mode class profile* of a state (`profile s`: for every mode, how many of its photons carry
+the common tag and how many carry a fresh tag) is the state up to the names of its fresh tags: by `tags_fresh` /
+the first clause of `sampler_filtered_law_partial` a fresh tag occurs once in a state, so a mode is `u` copies of
+`_:0` and `v` tags that occur nowhere else, and which numbers these carry is an artefact of the tag counter (the
+sampler resets it after every event, `generate_distribution` does not).  With the event index and the booleans of
+`_generate_distinguishability` independent and ideal and the permutation of `random.shuffle` UNIFORM (`shuffleLaw`),
+one sample of `_events_to_samples` gives EVERY test function `F` of the profile the expectation
+`generate_distribution` conditioned on `≥ f` photons gives it — hence, profile by profile, the same probability.
+This is the clause `sampler_filtered_law_partial` left open (there: only the totals over the modes, for every law
+of the shuffle).  The combinatorial core (`Lemmas/C06Place.lean`, `Lemmas/C06Shuffle.lean`): a uniformly shuffled
+list whose category counts are multinomial is a sequence of independent categorical draws
+(`table_shuffle_iid`, from `E_iid_perms`: the sum over all permutations of an iid list is `n!` times the iid
+expectation, by insertion exchangeability), the booleans refine the slots independently (`E_evKinds`), and the modes
+take consecutive blocks (`massP_blockSum_iid`).
+Not part of the statement: the independence of the `k` samples of one request (stated for rows of draws in
+`sampler_no_filter_law`; the booleans of one `random.choices` call are consumed event after event, `fSamples`). -/
+theorem sampler_filtered_law {P : Params} (hP : P.WF) {ns : List ℕ} (hne : ns ≠ []) (f t : ℕ)
+    (hf : f ≠ 0) (hperf : physPerf P ns.sum f ≠ 0) :
+    (∀ F : List (ℕ × ℕ) → ℚ,
+      E (fun s => F (profile s)) (fLaw P ns f t (shuffleLaw ns.sum)) =
+        E (fun s => F (profile s)) (condMin f (generateAt P 0 ns t))) ∧
+    (∀ cs : List (ℕ × ℕ),
+      massP (fun s => decide (profile s = cs)) (fLaw P ns f t (shuffleLaw ns.sum)) =
+        massP (fun s => decide (profile s = cs)) (condMin f (generateAt P 0 ns t))) ∧
+    -- the unconditioned core, for every function of the list of slot classes: multinomial event, classes of the
+    -- slots independent given their categories, uniform shuffle = independent draws from the physical description
+    (∀ (n : ℕ) (H : List (ℕ × ℕ) → ℚ),
+      E (fun e => E (shAvg H) (prodLaw ((canon n e).map (kindLaw P)))) (table P n 0) = E H (iid (physOne P) n)) ∧
+    -- the profile of `generate_distribution` is the block sums of such a sequence
+    (∀ F : List (ℕ × ℕ) → ℚ,
+      E (fun s => F (profile s)) (generateAt P 0 ns t) = E (fun x => F (blockSum ns x)) (iid (physOne P) ns.sum)) :=
+  ⟨fun F => fLaw_profile_law hP hne f t hf hperf F, fun cs => fLaw_profile_pmf hP hne f t hf hperf cs,
+    fun n H => table_shuffle_iid P n H, fun F => generateAt_profile hP hne t F⟩
+
+/-- **The hypotheses of the event-table theorems are the code's own routing condition.**  Whenever `generate_samples`
+takes the event-table route (imperfect source, a photon filter, `brightness * transmittance ≠ 0`, a non-empty filtered
+table — `sampRoute … = .events`), the filter is not `0` and `phys_perf`, by which the table is divided, is POSITIVE
+(one entry of the table is: `(0, 0, n)` with `p_duo^n` when pairs survive, `(n, 0, 0)` with `(η β)^n` otherwise; all
+entries are `≥ 0`).  So `sampler_filtered_law` / `sampler_filtered_law_partial` apply to every request the code serves on
+that route, and the division `prob / phys_perf` of `_compute_prob_table` never divides by zero there. -/
+theorem sampler_events_route_wellposed {P : Params} (hP : P.WF) (n f : ℕ) (h : sampRoute P n f = .events) :
+    f ≠ 0 ∧ 0 < physPerf P n f ∧ isPerfect P = false ∧ P.beta * P.eta ≠ 0 :=
+  ⟨((sampRoute_events_iff P n f).mp h).2.1, physPerf_pos_of_events hP n f h, ((sampRoute_events_iff P n f).mp h).1,
+    ((sampRoute_events_iff P n f).mp h).2.2.1⟩
+
+/-- `sampler_filtered_law` with the routing condition as its only hypothesis about the request. -/
+theorem sampler_events_route_law {P : Params} (hP : P.WF) {ns : List ℕ} (hne : ns ≠ []) (f t : ℕ)
+    (h : sampRoute P ns.sum f = .events) (F : List (ℕ × ℕ) → ℚ) :
+    E (fun s => F (profile s)) (fLaw P ns f t (shuffleLaw ns.sum)) =
+      E (fun s => F (profile s)) (condMin f (generateAt P 0 ns t)) :=
+  fLaw_profile_law hP hne f t (sampler_events_route_wellposed hP ns.sum f h).1
+    (sampler_events_route_wellposed hP ns.sum f h).2.1.ne' F
+
+/-- **The `k` samples of one filtered request are `k` independent copies of the one-sample law.**  `generate_samples`
+draws the `k` events with ONE `random.choices` call, ALL booleans with ONE `random.choices([True, False], k = Σ (i + k_duo))`
+call — `_events_to_samples` consumes them event after event (`fSamples`) — and shuffles once per sample.  With the `k`
+event indices independent and ideal, the `Σ (i + k_duo)` booleans independent and ideal (their NUMBER depends on the
+events drawn) and the `k` permutations independent with any law `σ`, EVERY test function `G` of the list of the `k`
+samples has the expectation `k` independent draws from `fLaw` give it; in particular a product of functions of the
+single samples factorises.  No hypothesis on the parameters, the input, the filter or `σ`.  Together with
+`sampler_filtered_law` (`σ` uniform): the profiles of the `k` samples are independent draws from
+`generate_distribution` conditioned on the filter. -/
+theorem sampler_filtered_samples_iid (P : Params) (ns : List ℕ) (f t : ℕ) (σ : Dist (List ℕ)) (k : ℕ) :
+    (∀ G : List State → ℚ,
+      E (fun idx => E (fun bs => E (fun perms =>
+          G (fSamples P.dm ns t (idx.map (eventOf P ns.sum f)) bs perms)) (iid σ k))
+          (prodLaw (List.replicate (boolsNeeded (idx.map (eventOf P ns.sum f))) (boolLaw P))))
+        (iid (eventIdxLaw P ns.sum f) k) =
+      E G (iid (fLaw P ns f t σ) k)) ∧
+    (∀ g : State → ℚ,
+      E (fun idx => E (fun bs => E (fun perms =>
+          ((fSamples P.dm ns t (idx.map (eventOf P ns.sum f)) bs perms).map g).prod) (iid σ k))
+          (prodLaw (List.replicate (boolsNeeded (idx.map (eventOf P ns.sum f))) (boolLaw P))))
+        (iid (eventIdxLaw P ns.sum f) k) = E g (fLaw P ns f t σ) ^ k) ∧
+    (∀ (events : List (ℕ × ℕ × ℕ)) (bs : List Bool) (perms : List (List ℕ)),
+      (fSamples P.dm ns t events bs perms).length = events.length) :=
+  ⟨fun G => fSamples_iid P ns f t σ k G, fun g => fSamples_iid_prod P ns f t σ k g,
+    fun events bs perms => fSamples_length P.dm ns t events bs perms⟩
+
 /-- The tags `_events_to_samples` attaches (`catTag` made concrete): for the event `(i, j, k)`, whatever the tag
 counter, the photons it creates have — averaged over ideal booleans — the class generating function
 `sigS^i · x^j · (sigS·x)^k` (`sigS = r·a + (1−r)·b` for a signal photon, `x = b` or `a` for the extra photon according
@@ -785,6 +896,124 @@ theorem sampler_event_tags (P : Params) (a b : ℚ) (n : ℕ) (e : ℕ × ℕ ×
     E (fun e => sigS P a b ^ e.1 * xW P a b ^ e.2.1 * (sigS P a b * xW P a b) ^ e.2.2) (table P n 0) =
       tagGF P a b ^ n :=
   ⟨evItems_gf P a b n e t, E_table_evGF P a b n⟩
+
+/-! ### `Source.simplify_distribution = True`: `anonymize_annotations` (`Model/C06Anon.lean`) -/
+
+/-- What `anonymize_annotations` does to one state, for EVERY annotated state (not only those a source
+produces): it applies ONE renaming `renameOf s` (a tag ↦ `_:rank of its first appearance`) to every photon
+and re-sorts every mode; the renaming is injective on the tags of the state — hence the equality pattern of
+the tags over all pairs of photon positions (which photons share a tag) is unchanged.  (`_:0` after the
+renaming is the tag of the FIRST photon, not "the common tag".) -/
+theorem anonymize_is_injective_renaming (s : State) :
+    anonModes [] s = s.map (List.map (renameOf s)) ∧
+    anonState s = (s.map (List.map (renameOf s))).map sortMode ∧
+    (∀ m : Mode, (sortMode m).Perm m) ∧
+    (∀ a ∈ s.flatten, ∀ b, renameOf s a = renameOf s b ↔ a = b) ∧
+    tagPattern (anonModes [] s).flatten = tagPattern s.flatten := by
+  refine ⟨anonModes_nil_eq s, ?_, sortMode_perm, fun a ha b => renameOf_inj s ha, ?_⟩
+  · rw [anonState_eq, List.map_map]; rfl
+  · rw [anonModes_nil_eq, ← List.map_flatten]
+    exact tagPattern_map _ _ fun a ha b => renameOf_inj s ha
+
+/-- … hence the number of modes, the number of photons in every mode, the total photon number and the
+event "all photons carry one and the same tag" are those of the original state. -/
+theorem anonymize_preserves_counts (s : State) :
+    (anonState s).length = s.length ∧ (anonState s).map List.length = s.map List.length ∧
+    photons (anonState s) = photons s ∧ oneTag (anonState s) = oneTag s :=
+  ⟨anonState_length s, anonState_counts s, photons_anonState s, oneTag_anonState s⟩
+
+/-- The simplified distribution is the push-forward of the distribution under `anonState` (probabilities of
+states with the same image are ADDED): for every test function `g` the expectation is that of `g ∘ anonState`;
+in particular the total mass is unchanged. -/
+theorem simplify_pushforward (g : State → ℚ) (d : Dist State) :
+    E g (anonDist d) = E (fun s => g (anonState s)) d ∧ mass (anonDist d) = mass d := by
+  refine ⟨E_anonDist g d, ?_⟩
+  rw [mass_eq_E, E_anonDist, ← mass_eq_E]
+
+/-- The keys of the simplified distribution are pairwise different, every key is the image of a key of the
+input, and the entries are sorted by decreasing probability. -/
+theorem simplify_keys_distinct_sorted (d : Dist State) :
+    ((anonDist d).map Prod.fst).Nodup ∧ (anonDist d).Pairwise (fun x y => y.2 ≤ x.2) ∧
+    ∀ x ∈ anonDist d, ∃ y ∈ d, anonState y.1 = x.1 :=
+  ⟨anonDist_keys_nodup d, anonDist_sorted d, mem_anonDist_key d⟩
+
+/-- The flag: `simplify_distribution` acts only on a partially distinguishable source; otherwise (flag
+off, or a source whose mixture carries no annotations) `generate_distribution` returns what it returned
+before. -/
+theorem simplify_flag (P : Params) (b : Bool) (thr : ℚ) (ns : List ℕ) (t : ℕ) :
+    generateS P b thr ns t = generateSAt P b (max thr minP) ns t ∧
+    ((b = false ∨ partDist P = false) → generateS P b thr ns t = generate P thr ns t) ∧
+    (b = true → partDist P = true → generateS P b thr ns t = anonDist (generate P thr ns t)) := by
+  refine ⟨rfl, ?_, ?_⟩
+  · rintro (h | h) <;> simp [generateS, h]
+  · intro h1 h2; simp [generateS, h1, h2]
+
+/-- Every law of an observable that the renaming preserves is unchanged by the simplification — at every
+threshold, for every parameter tuple, input and tag counter, whether or not the flag is set. -/
+theorem simplify_preserves_invariant_laws (P : Params) (b : Bool) (θ : ℚ) (ns : List ℕ) (t : ℕ)
+    (g : State → ℚ) (hg : ∀ s, g (anonState s) = g s) :
+    E g (generateSAt P b θ ns t) = E g (generateAt P θ ns t) :=
+  E_generateSAt_of_invariant P b θ ns t g hg
+
+/-- The simplified distribution is still normalised (when anything at all survives the trimming). -/
+theorem simplify_normalised (P : Params) (b : Bool) (thr : ℚ) (ns : List ℕ) (t : ℕ)
+    (h : mass (generateRaw P (max thr minP) ns t) ≠ 0) : mass (generateS P b thr ns t) = 1 := by
+  rw [(simplify_flag P b thr ns t).1, mass_eq_E,
+    simplify_preserves_invariant_laws P b _ ns t _ (fun _ => rfl), ← mass_eq_E]
+  exact generate_normalised P thr ns t h
+
+/-- The photon-count laws carry over to the simplified mixture, flag on or off: the joint law of the photon
+counts per mode (`photon_count_joint_pmf`), the law of the total photon number (`photon_number_pmf`) and its
+generating function (`photon_number_law`). -/
+theorem simplify_photon_laws {P : Params} (hP : P.WF) (b : Bool) {ns : List ℕ} (hne : ns ≠ []) (t : ℕ) :
+    (∀ ks : List ℕ, massP (fun s => decide (s.map List.length = ks)) (generateSAt P b 0 ns t) =
+      if ks.length = ns.length then (List.zipWith (countCoeff (p0 P) (pi1 P) (pi2 P)) ns ks).prod
+      else 0) ∧
+    (∀ k : ℕ, massP (fun s => decide (photons s = k)) (generateSAt P b 0 ns t) =
+      countCoeff (p0 P) (pi1 P) (pi2 P) ns.sum k) ∧
+    (∀ y : ℚ, E (fun s => y ^ photons s) (generateSAt P b 0 ns t) = poly P y ^ ns.sum) := by
+  have inv : ∀ p : State → Bool, (∀ s, p (anonState s) = p s) →
+      massP p (generateSAt P b 0 ns t) = massP p (generateAt P 0 ns t) := fun p hp =>
+    E_generateSAt_of_invariant P b 0 ns t (fun a => if p a then 1 else 0) (fun s => by rw [hp])
+  refine ⟨fun ks => ?_, fun k => ?_, fun y => ?_⟩
+  · rw [inv _ (fun s => by rw [anonState_counts])]
+    exact photon_count_joint_pmf hP hne t ks
+  · rw [inv _ (fun s => by rw [photons_anonState])]
+    exact photon_number_pmf hP hne t k
+  · rw [simplify_preserves_invariant_laws P b 0 ns t _ (fun s => by rw [photons_anonState])]
+    exact photon_number_law hP hne t y
+
+/-- The probability that all photons of the state carry one and the same tag is unchanged by the
+simplification (every threshold, every parameter tuple).
+
+PARTIAL with respect to the statement wanted — "for the source whose only defect is the indistinguishability,
+two requested photons share a tag with probability `I` also in the simplified mixture": `tag_share_prob` gives
+`massP allCommon (generateAt P 0 ns t) = I`; that on the two-photon states of that mixture `oneTag` and
+`allCommon` are the same event (fresh tags are pairwise different by `tags_fresh`, and a partially
+distinguishable source emits no unannotated photon) is NOT proved in Lean; the harness evaluates the law of
+the tag-equality pattern on the real simplified output against the closed form. -/
+theorem simplify_share_tag_prob_partial (P : Params) (b : Bool) (θ : ℚ) (ns : List ℕ) (t : ℕ) :
+    massP oneTag (generateSAt P b θ ns t) = massP oneTag (generateAt P θ ns t) :=
+  E_generateSAt_of_invariant P b θ ns t (fun a => if oneTag a then 1 else 0)
+    (fun s => by rw [oneTag_anonState])
+
+-- non-vacuity / concrete values of the model of `anonymize_annotations`
+example : anonState [[some 1, some 3], [some 2]] = [[some 0, some 1], [some 2]] := by decide
+-- a fresh tag on the first photon becomes `_:0`; the mode is re-sorted after the renaming
+example : anonState [[some 2], [some 0, some 2]] = [[some 0], [some 0, some 1]] := by decide
+-- an unannotated photon is renamed like any other
+example : anonState [[none], [some 4]] = [[some 0], [some 1]] := by decide
+example : oneTag [[some 3], [some 3]] = true ∧ oneTag [[some 0], [some 3]] = false := by decide
+example : ∃ g : State → ℚ, (∀ s, g (anonState s) = g s) ∧ g [[some 1]] ≠ g [] :=
+  ⟨fun s => photons s, fun s => by simp only [photons_anonState], by simp [photons]⟩
+-- two states of the source are merged into one key, probabilities added, result sorted
+example : anonDist [([[some 0], [some 3]], 1 / 4), ([[some 1], [some 0]], 1 / 4),
+      ([[some 0], [some 0]], 3 / 8), ([[some 0], []], 1 / 8)] =
+    [([[some 0], [some 1]], 1 / 2), ([[some 0], [some 0]], 3 / 8), ([[some 0], []], 1 / 8)] := by
+  decide +kernel
+example : partDist { beta := 1, g2 := 0, q := 1, eta := 1, ind := 1 / 4, r := 1 / 2, dm := true } = true ∧
+    partDist { beta := 1 / 2, g2 := 0, q := 1, eta := 1, ind := 1, r := 1, dm := true } = false := by
+  constructor <;> norm_num [partDist]
 
 /-! ### closed multinomial formula for `N` requested photons -/
 
@@ -883,21 +1112,34 @@ example : mass (generateRaw exPerfect (max 0 minP) [1] 0) ≠ 0 := by
 def exNoise (b : ℚ) : NoiseVal :=
   { brightness := b, g2 := 0, q := 1, ind := 1, r := 1, transmittance := 1, g2dist := true }
 def exHist : List ProcOp := [.input [1, 1], .read, .mutate 0 (exNoise (1 / 2)), .assign 0]
+theorem exNoise_admissible_half : (exNoise (1 / 2)).admissible = true := by
+  simp [NoiseVal.admissible, NoiseVal.params, ofNoise, Params.admissible, exNoise]; norm_num
+theorem exNoise_admissible_one : (exNoise 1).admissible = true := by
+  simp [NoiseVal.admissible, NoiseVal.params, ofNoise, Params.admissible, exNoise]
 example : (procAfter (fun _ => exNoise 1) 0 exHist).dirty = false ∧
     (procAfter (fun _ => exNoise 1) 0 exHist).input = some (.fock [1, 1]) ∧
     ((procAfter (fun _ => exNoise 1) 0 exHist).heap 0).brightness = 1 / 2 := by
-  simp [procAfter, exHist, SM.exec_cons, SM.exec_nil, procStep, Proc.fill, Proc.init, exNoise]
+  have ha : ({ brightness := 2⁻¹, g2 := 0, q := 1, ind := 1, r := 1, transmittance := 1, g2dist := true } :
+      NoiseVal).admissible = true := by simpa [exNoise] using exNoise_admissible_half
+  simp [procAfter, exHist, SM.exec_cons, SM.exec_nil, procStep, Proc.fill, Proc.init, exNoise, ha]
 -- ... also when a custom input was used in between and the SAME Fock state is given again (the custom object
 -- sat in the slot of the cached mixture)
 def exHistCustom : List ProcOp := [.input [1, 0], .custom 7, .assign 0, .input [1, 0]]
 example : (procAfter (fun _ => exNoise (1 / 2)) 0 exHistCustom).dirty = false ∧
     (procAfter (fun _ => exNoise (1 / 2)) 0 exHistCustom).input = some (.fock [1, 0]) := by
-  simp [procAfter, exHistCustom, SM.exec_cons, SM.exec_nil, procStep, Proc.fill, Proc.init, Proc.hasCustomInput]
+  have ha : (exNoise 2⁻¹).admissible = true := by simpa using exNoise_admissible_half
+  simp [procAfter, exHistCustom, SM.exec_cons, SM.exec_nil, procStep, Proc.fill, Proc.init, Proc.hasCustomInput, ha]
 -- hypothesis of `proc_custom_input_returned` / `proc_no_input_no_distribution`
 example : (procAfter (fun _ => exNoise 1) 0 [.input [1, 0], .custom 7, .assign 0]).input = some (.custom 7) := by
-  simp [procAfter, SM.exec_cons, SM.exec_nil, procStep, Proc.fill, Proc.init, Proc.hasCustomInput]
+  simp [procAfter, SM.exec_cons, SM.exec_nil, procStep, Proc.fill, Proc.init, Proc.hasCustomInput,
+    exNoise_admissible_one]
 example : (procAfter (fun _ => exNoise 1) 0 [.input [1, 0], .custom 7, .clear]).input = none := by
   simp [procAfter, SM.exec_cons, SM.exec_nil, procStep, Proc.fill, Proc.init]
+-- hypothesis of `proc_assign_rejected`: values every field of which `NoiseModel` accepts, yet `Source.__init__`
+-- rejects (brightness * g2 = 4/5 > 1/2); hypothesis of `proc_assign_clean`: `exNoise_admissible_half`
+example : ({ brightness := 1, g2 := 4 / 5, q := 0, ind := 1, r := 1, transmittance := 1, g2dist := true } :
+    NoiseVal).admissible = false := by
+  simp [NoiseVal.admissible, NoiseVal.params, ofNoise, Params.admissible]; norm_num
 -- the hypothesis `dirty = false` is needed: between the in-place update and the re-assignment the source
 -- of the code as it is still has the old values
 example : (procAfter (fun _ => exNoise 1) 0 [.mutate 0 (exNoise (1 / 2))]).src.beta = 1 ∧
@@ -951,5 +1193,16 @@ example : (fSample true [1, 1] 0 (1, 0, 0) [true] [0, 1]).map List.length = [1, 
 -- `tag_pmf_multinomial`: hypotheses as for `tag_pmf`; the six one-photon probabilities are the explicit ones
 example : sixP exP (1, 1) = exP.r * p22 exP ∧ sixP exP (2, 0) = 0 ∧ (1, 1) ∈ six := by
   refine ⟨by simp [sixP, exP], by simp [sixP, exP], by decide⟩
+
+-- hypotheses of `sampler_filtered_law`: those of `sampler_filtered_law_partial` (above).  The profile sees the
+-- placement: the two shuffles of one "signal alone" photon and one empty slot give two different profiles
+example : profile (fSample true [1, 1] 0 (1, 0, 0) [true] [0, 1]) = [(1, 0), (0, 0)] ∧
+    profile (fSample true [1, 1] 0 (1, 0, 0) [true] [1, 0]) = [(0, 0), (1, 0)] := by
+  constructor <;>
+    simp [profile_fSample, evKinds_eq, blockSum, permute, clsSum, bcls]
+
+-- hypothesis of `sampler_events_route_wellposed` / `sampler_events_route_law`: `sampRoute exP 2 1 = .events` (above)
+-- `sampler_filtered_samples_iid` has no hypotheses; the number of booleans really depends on the events
+example : boolsNeeded [(1, 0, 0), (0, 1, 0), (0, 0, 2)] = 3 := by decide
 
 end PM.C06
